@@ -111,7 +111,7 @@ def units_for(P, kind):
         dict(name=p + '_on_complete', harness='h_%s_on_complete' % p, enforce=oc),
         dict(name=p + '_on_stop_complete', harness='h_%s_on_stop_complete' % p, enforce=P + '_cop_on_stop_complete', replace=[oc]),
         dict(name=p + '_on_schedule_stop_complete', harness='h_%s_on_schedule_stop_complete' % p, enforce=P + '_cop_on_schedule_stop_complete', replace=[P + '_request_stop_local']),
-        # ---- obligations that fail on the current tree (three genuine defects), thorough tier only ----
+        # ---- obligations that failed before the repair commits f463cdf / 371655c in /repo (three genuine defects); they hold now and run in every tier ----
         # D1: start_io() is also the retry continuation of an operation that found no ring space: it constructs the stop callback again
         dict(name=p + '_on_schedule_complete_retry', harness='h_%s_on_schedule_complete_retry' % p, enforce=P + '_on_schedule_complete', defines=['VF_RETRY'], note=KNOWN),
         # D2: the stop callback exists before the operation's SQE does: a stop request that is already there (or arrives while the operation waits for
@@ -149,9 +149,9 @@ SPEC = dict(
         'start() is called once per operation state; on_schedule_complete / on_*_complete / on_stop_complete / on_schedule_stop_complete are entered only through the context\'s queues with their own '
         'queue item dequeued',
         'quick-tier units assume that no stop request is delivered before the operation\'s own SQE has been taken (start_io: token not yet stopped at construction, no remote request in the '
-        'window; request_stop*: the target SQE exists) and that start_io is entered once; the thorough-tier units *_early_stop / *_early / *_retry drop these assumptions and FAIL on the current tree (defects D1, D2)',
+        'window; request_stop*: the target SQE exists) and that start_io is entered once; the thorough-tier units *_early_stop / *_early / *_retry drop these assumptions (they failed before the repair commit f463cdf in /repo - defects D1, D2 - and hold since)',
         'quick-tier on_*_complete accepts done for a CQE with res >= 0 when a stop request has been observed (what the code does); the thorough-tier unit *_on_complete_result demands the documented '
-        'decoding and FAILS on the current tree (defect D3)',
+        'decoding (it failed before the repair commit 371655c in /repo - defect D3 - and holds since)',
         'rely of the I/O-thread functions: a remote canceller performs request_stop() as summarised by its contract (lemma_uio_env_cancel); rely of request_stop: the I/O thread may consume the '
         'operation\'s CQE (one fetch_sub) but cannot complete the operation while the cancel half of the count is outstanding (lemma_uio_refcount)',
         'accept_sender::operation (same shape, different value type) is not under contract',
